@@ -17,7 +17,7 @@ from ..Utilities._mpi import CAN_USE_MPI, MPI_SIZE, MPI_COMM, Reduce_sum
 from ..FEM import Mesh, MatrixType, FeArray, Operators
 
 if TYPE_CHECKING:
-    from ..FEM import _GroupElem
+    from ..FEM import _GroupElem, ElemType
 
 # models
 from .. import Models
@@ -103,10 +103,10 @@ class PhaseField(_Simu):
         assert isinstance(model, Models.PhaseField), "model must be a phase field model"
         super().__init__(mesh, model, folder, verbosity)
 
-        # Init internal variable
-        self.__psiP_e_pg: FeArray.FeArrayALike = np.empty(0, dtype=float)
+        # Init internal variable (one field per element group of the mesh)
+        self.__psiP_e_pg: dict["ElemType", FeArray.FeArrayALike] = {}
         # old positive elastic energy density psiPlus(e, pg, 1) to use the miehe history field
-        self.__old_psiP_e_pg: FeArray.FeArrayALike = np.empty(0, dtype=float)
+        self.__old_psiP_e_pg: dict["ElemType", FeArray.FeArrayALike] = {}
         # convergence informations of the last Solve(), saved with each iteration
         self.__Niter = 0
         self.__convIter = 0.0
@@ -142,8 +142,8 @@ class PhaseField(_Simu):
         _Simu.mesh.fset(self, mesh)  # type: ignore [attr-defined]
         # the fields are re-initialised on a new mesh: the history field restarts with them
         # (its shape alone does not tell a new mesh from the old one)
-        self.__psiP_e_pg = np.empty(0, dtype=float)
-        self.__old_psiP_e_pg = np.empty(0, dtype=float)
+        self.__psiP_e_pg = {}
+        self.__old_psiP_e_pg = {}
 
     def Get_unknowns(self, problemType=None) -> list[str]:
         if problemType == self.ProblemTypes.damage:
@@ -526,10 +526,10 @@ class PhaseField(_Simu):
         psiP_e_pg, _ = phaseFieldModel.Calc_psi_e_pg(Epsilon_e_pg)
 
         if phaseFieldModel.solver == "History":
-            # Get the old history field
-            old_psiPlus_e_pg = self.__old_psiP_e_pg.copy()  # type: ignore [union-attr]
+            # Get the old history field of this element group
+            old_psiPlus_e_pg = self.__old_psiP_e_pg.get(groupElem.elemType, None)
 
-            if isinstance(old_psiPlus_e_pg, list) and len(old_psiPlus_e_pg) == 0:
+            if old_psiPlus_e_pg is None:
                 # No damage available yet
                 old_psiPlus_e_pg = np.zeros_like(psiP_e_pg)
 
@@ -548,9 +548,9 @@ class PhaseField(_Simu):
             # old = np.linalg.norm(self.__old_psiP_e_pg)
             # assert new >= old, "Error"
 
-        self.__psiP_e_pg = FeArray.asfearray(psiP_e_pg)
+        self.__psiP_e_pg[groupElem.elemType] = FeArray.asfearray(psiP_e_pg)
 
-        return self.__psiP_e_pg
+        return self.__psiP_e_pg[groupElem.elemType]
 
     def __Construct_Damage_Matrix(self):
 
@@ -637,10 +637,12 @@ class PhaseField(_Simu):
 
         if self.phaseFieldModel.solver == self.phaseFieldModel.SolverType.History:
             # update old history field for next resolution
-            self.__old_psiP_e_pg = self.__psiP_e_pg
+            self.__old_psiP_e_pg = self.__psiP_e_pg.copy()
             # the history field belongs to the iteration. It is sized by the elements, so it is kept in a
             # dict like the state of Simulations.InElastic: a bare array would be taken for a dof vector
-            iter["history"] = {"psiP_e_pg": self.__old_psiP_e_pg.copy()}
+            iter["history"] = {
+                et: arr.copy() for et, arr in self.__old_psiP_e_pg.items()
+            }
 
         iter["displacement"] = self.displacement
         iter["damage"] = self.damage
@@ -665,8 +667,10 @@ class PhaseField(_Simu):
 
         if "history" in results:
             # the history field saved with the iteration
-            self.__old_psiP_e_pg = results["history"]["psiP_e_pg"].copy()
-            self.__psiP_e_pg = self.__old_psiP_e_pg
+            self.__old_psiP_e_pg = {
+                et: arr.copy() for et, arr in results["history"].items()
+            }
+            self.__psiP_e_pg = self.__old_psiP_e_pg.copy()
 
         if (
             resetAll
@@ -674,9 +678,12 @@ class PhaseField(_Simu):
         ):
             # It's really useful to do this otherwise when we calculate psiP there will be a problem
             # (restarted as in the mesh setter: an iteration saved before the first Solve has no shape to give)
-            self.__old_psiP_e_pg = np.empty(0, dtype=float)
+            self.__old_psiP_e_pg = {}
             # update psi+ with the current state
-            self.__old_psiP_e_pg = self.__Calc_psiPlus_e_pg(self.mesh.groupElem)
+            self.__old_psiP_e_pg = {
+                groupElem.elemType: self.__Calc_psiPlus_e_pg(groupElem)
+                for groupElem in self.mesh.Get_list_groupElem()
+            }
 
         return results
 
